@@ -1278,7 +1278,7 @@ def common(chk, want):
                                  "leaf functions without calls): " + text)
                 chk.violation("noeffect-" + key, text[:400], d)
                 break
-    if tie_bad and not found_concrete:
+    if tie_bad and not (found_concrete and chk.has_new_concrete()):
         pr, why, bad = tie_bad[0]
         d = write_replay(chk, "tie", pr, "T-dump tie broken: %s\nfirst disagreements (value / call site, model-only labels, impl labels):\n%s\n"
                          "the native runs of the generated programs did not exhibit a concrete unsound answer" %
